@@ -265,9 +265,12 @@ def build(ctx):
         jobs.append(Job('pfor.index.' + tag, C, 'h_pfor', route='LF', defines=['Value=' + it.replace(' ', '_SP_'), 'Index=' + it.replace(' ', '_SP_'), 'IT_' + tag, 'PFOR'], timeout=600, unwind=3,
                         checks=['--bounds-check', '--pointer-check', '--div-by-zero-check'],
                         target='parallel_for_impl<%s> (both overloads) + parallel_for_body_wrapper index arithmetic' % it, source=PF))
-    for dom, dd in (('below2_50', ['BELOW_2_50']), ('full', [])):
-        jobs.append(Job('br2d.dim.' + dom, C, 'h_br2d', route='LF', defines=['Value=size_t', 'VT_size_t', 'ND'] + dd, timeout=900, target='blocked_range2d::do_split dimension choice [IEEE double], domain: ' + dom, source=BR2))
-        jobs.append(Job('br3d.dim.' + dom, C, 'h_br3d', route='LF', defines=['Value=size_t', 'VT_size_t', 'ND'] + dd, timeout=900, target='blocked_range3d::do_split dimension choice [IEEE double], domain: ' + dom, source=BR3))
+    for dom, dd in (('full', []),):   # a restricted-domain twin (extents <= 4096) still times out (IEEE double multiply on SAT): dropped, see DESIGN
+        bd = dom == 'small'
+        jobs.append(Job('br2d.dim.' + dom, C, 'h_br2d', route='BD' if bd else 'LF', bounded=bd, bound_text='extents and grainsizes <= 4096 (IEEE double products exact)' if bd else None,
+                        defines=['Value=size_t', 'VT_size_t', 'ND'] + dd, timeout=900, target='blocked_range2d::do_split dimension choice [IEEE double], domain: ' + dom, source=BR2))
+        jobs.append(Job('br3d.dim.' + dom, C, 'h_br3d', route='BD' if bd else 'LF', bounded=bd, bound_text='extents and grainsizes <= 4096 (IEEE double products exact)' if bd else None,
+                        defines=['Value=size_t', 'VT_size_t', 'ND'] + dd, timeout=900, target='blocked_range3d::do_split dimension choice [IEEE double], domain: ' + dom, source=BR3))
     return {
         'jobs': jobs, 'sliced': sliced, 'fired': fired,
         'trusted': ['start_for::offer_work / run_body / spawn (contract stubs: offer_work constructs the right-hand task with the REAL splitting constructors; that a spawned task runs once is C01)',
